@@ -422,3 +422,12 @@ def run(ctx):
               and k.rsplit("::", 1)[-1] not in ("find_uci", "uci_to_pgn")]
     run_balance(ctx, "C03.R5", probes, {})
     ctx.assumptions += ["the 12-bit undo field bounds the half-move clock to 0..4095 (the property's quantifier)"]
+
+
+_run_before_fx = run
+
+
+def run(ctx):
+    _run_before_fx(ctx)
+    from . import movefx_rules
+    movefx_rules.rule_unmake_inverts_make(ctx)
